@@ -172,9 +172,8 @@ def zoo_task(t):
                         break
                     out["skipped"].append("%s %s (%s): single-row evaluation raised %r" % (name, op, variant, ex))
                     continue
-                if not all(bool(torch.isfinite(t_).all()) for r in singles.values() for t_ in r):
-                    out["skipped"].append("%s %s (%s): non-finite single-row results (not this property's business)" % (name, op, variant))
-                    continue
+                # (rows outside a support have log-density -inf, overflowing rows nan: whatever a row gives alone it
+                # must give in every batch - infinities and nans are compared as values)
                 for comp in comps:
                     idx = [k - 1 for k in comp]
                     out["n"] += 1
@@ -188,7 +187,7 @@ def zoo_task(t):
                     for pos, i in enumerate(idx):
                         for a, b in zip(res, singles[i]):
                             ra = a[pos : pos + 1]
-                            if ra.shape != b.shape or not bool(torch.allclose(ra, b, rtol=tol, atol=tol, equal_nan=False)):
+                            if ra.shape != b.shape or not bool(torch.allclose(ra, b, rtol=tol, atol=tol, equal_nan=True)):
                                 err = float((ra - b).abs().max()) if ra.shape == b.shape else float("nan")
                                 out["fails"].append(dict(case, clause="row_depends_on_batch", detail="%s %s (%s): row %d evaluated in batch %s differs from the same row alone by %.3g" % (name, op, variant, i + 1, list(comp), err)))
                                 stop = True
@@ -199,6 +198,46 @@ def zoo_task(t):
                         break
                 if stop:
                     break
+    return out
+
+
+def prior_task(t):
+    """The box-shaped priors (torch distributions, not modules): rows inside and outside the support, every batch
+    composition against the rows alone; -inf and nan are compared as values."""
+    warnings.filterwarnings("ignore")
+    import torch
+
+    torch.set_num_threads(1)
+    from nflows.distributions import uniform as U
+
+    comps, seed = t
+    out = {"n": 0, "fails": [], "skipped": []}
+    g = torch.Generator().manual_seed(seed)
+    priors = {
+        "BoxUniform": (lambda: U.BoxUniform(low=torch.tensor([-1.0, 2.0]), high=torch.tensor([3.0, 2.5])), torch.tensor([[0.5, 2.2], [9.0, 2.2], [2.9, 2.4], [0.0, -7.0]])),
+        "LotkaVolterraOscillating": (lambda: U.LotkaVolterraOscillating(), torch.cat([torch.rand(1, 4, generator=g) * 2 - 3, torch.full((1, 4), 7.5), torch.rand(1, 4, generator=g) * 2 - 3, torch.tensor([[0.0, -9.0, 0.0, 0.0]])])),
+        "MG1Uniform": (lambda: U.MG1Uniform(low=torch.zeros(3), high=torch.tensor([10.0, 10.0, 1.0 / 3.0])), torch.tensor([[2.0, 5.0, 0.2], [2.0, 1.0, 0.2], [40.0, 45.0, 0.1], [1.0, 3.0, 0.3]])),
+    }
+    for name, (build, pts) in priors.items():
+        try:
+            singles = {i: build().log_prob(pts[i : i + 1]) for i in range(4)}
+        except Exception as ex:  # noqa
+            out["skipped"].append("%s: %r" % (name, ex))
+            continue
+        for comp in comps:
+            idx = [k - 1 for k in comp]
+            out["n"] += 1
+            case = {"name": name, "op": "log_prob", "variant": "prior", "comp": list(comp), "seed": seed}
+            try:
+                res = build().log_prob(pts[idx])
+            except Exception as ex:  # noqa
+                out["fails"].append(dict(case, clause="raises", detail="%s log_prob on rows %s raised %r although every row evaluates alone" % (name, list(comp), ex)))
+                break
+            bad = [i for pos, i in enumerate(idx) if not bool(torch.allclose(res[pos : pos + 1], singles[i], rtol=1e-6, atol=1e-6, equal_nan=True))]
+            if bad:
+                i = bad[0]
+                out["fails"].append(dict(case, clause="row_depends_on_batch", detail="%s log_prob: row %d evaluated in batch %s gives %s, alone %s" % (name, i + 1, list(comp), float(res[idx.index(i)]), float(singles[i][0]))))
+                break
     return out
 
 
@@ -220,6 +259,12 @@ def main(run, replay=None):
     from vcore import zoo as _z
 
     names = [e.name for e in _z.entries()]
+    if replay and replay["case"].get("variant") == "prior":
+        c = replay["case"]
+        for f in prior_task(([tuple(c["comp"])], c["seed"]))["fails"]:
+            if f["name"] == c["name"]:
+                run.violation({"name": c["name"], "clause": f["clause"], "op": f["op"]}, "replayed: " + f["detail"], c)
+        return
     if replay:
         c = replay["case"]
         out = zoo_task(([c["name"]], [tuple(c["comp"])], c["seed"]))
@@ -232,6 +277,10 @@ def main(run, replay=None):
         run.evaluations += out["n"]
         fails += out["fails"]
         skipped += out["skipped"]
+    out = prior_task((comps, run.seed))
+    run.evaluations += out["n"]
+    fails += out["fails"]
+    skipped += out["skipped"]
     run.extra["skipped"] = skipped[:40]
     for n in names:
         for cp in comps:
